@@ -51,7 +51,7 @@ func vIndexCache() *frac.IndexCache {
 // files that form it, or all of its files are gone.
 func VerifStartup() {
 	fs := frac.VerifFS
-	fs.Files, fs.Ops, fs.CrashAt = map[string]bool{}, 0, 0 // harness state is process-global: start clean
+	fs.Files, fs.Ops, fs.CrashAt, fs.Opened, fs.SealedDocs = map[string]bool{}, 0, 0, "", "" // harness state is process-global: start clean
 	vServedActive, vServedSealed = nil, nil
 	scenario := rt.Choose(4)
 	var op func()
@@ -63,6 +63,10 @@ func VerifStartup() {
 		op = func() { a.Suicide() }
 	case 3: // sealing: proxyFrac.Seal = frac.Seal (sorted docs file, then index file, each written under a temporary name and renamed), then Active.Release (meta and docs removed)
 		cfg := &frac.Config{SkipSortDocs: rt.Choose(2) == 1}
+		fs.SealedDocs = ".sdocs"
+		if cfg.SkipSortDocs {
+			fs.SealedDocs = ".docs"
+		}
 		fp := &fractionProvider{config: cfg, cacheProvider: NewCacheMaintainer(1<<20, 1<<20, nil)}
 		a := fp.NewActive(vBase)
 		frac.VerifMarkNonEmpty(a)
@@ -75,8 +79,10 @@ func VerifStartup() {
 	default: // deletion of a sealed fraction, with plain or sorted docs
 		if rt.Choose(2) == 0 {
 			fs.Files[vBase+".docs"] = true
+			fs.SealedDocs = ".docs"
 		} else {
 			fs.Files[vBase+".sdocs"] = true
+			fs.SealedDocs = ".sdocs"
 		}
 		fs.Files[vBase+".index"] = true
 		s := frac.NewSealed(vBase, nil, vIndexCache(), cache.NewCache[[]byte](nil, nil), &frac.Info{Path: vBase, IndexOnDisk: 1}, &frac.Config{})
@@ -108,6 +114,10 @@ func VerifStartup() {
 	}
 	if len(vServedSealed) == 1 {
 		rt.Assert(has(".index") && (has(".docs") || has(".sdocs")), "a sealed fraction is served only with its index and docs files")
+		if has(".index") && (has(".docs") || has(".sdocs")) {
+			// which documents file will the served fraction read? (the real Sealed.openDocs prefers .docs)
+			rt.Assert(frac.VerifDocsFileOf(vBase) == vBase+fs.SealedDocs, "a sealed fraction reads the documents file its index was written for")
+		}
 	}
 	if served == 0 {
 		rt.Assert(len(after) == 0, "a fraction that is not served is completely gone")
